@@ -83,6 +83,29 @@ CHECKS = {
                      "(window starts defined from the attempts, decisions compared with an isolated instance, published gauge bounded by keys that attempted within 4D).",
                 note="Trusted: TLC; tokio's paused clock; the OpenTelemetry manual reader used to read the rate_limiter_size gauge. Window lengths are dyadic multiples of the tick so the "
                      "f32 arithmetic of the code is exact; f32 rounding for other lengths is a numeric question this technique does not decide."),
+    "C14": dict(engine="listener", design="5 C14", technique="TLC model checking of Listener.tla (deadline, configuration reaches the connection) + the whole application started from a configuration value on loopback TCP + TLC trace validation",
+                text="Listener.tla is checked by TLC (every connection closed by accept + timeout whatever the client does; liveness without fairness for hostile clients). The real application "
+                     "(passage::start(Config)) is started per scenario with a configured maximum frame length, cookie expiry, secret and timeout; scripted TCP clients send frames of exactly "
+                     "max and max+1 bytes, present cookies on both sides of the CONFIGURED expiry / under another secret / for another IP, and go silent, trickle one byte at a time, stop "
+                     "at each protocol step or echo forever; TLC judges served-iff-within-limit, cookie acceptance against the configured values, and closure within the timeout.",
+                note='Trusted: TLC; the scripted TCP client of harness/hx-core (lib) and real loopback TCP; real time with 700-1000 ms of slack against failure modes that are unbounded waits or whole-timeout differences. The full Listener model is explored exhaustively only for 2-3 clients; scenario families are enumerated lists / TLC simulation, not exhaustive.'),
+    "C15": dict(engine="listener", design="5 C15", technique="TLC simulation of Admission.tla (arrival histories) + TLC model checking of Listener.tla + the real Listener on loopback with PROXY v1/v2 headers built by the harness + TLC trace validation recomputing admission",
+                text="Arrival histories (peers p1/p2, PROXY v1 / v2 / invalid / garbage / absent headers, announced IPv4 and IPv6 sources, the same IP from another port, status and full login "
+                     "connections) are generated by TLC per PROXY mode (off, v1 only, v2 only, both) and limit, and played in order against the real Listener with recording adapters; TLC "
+                     "recomputes the admission decision from the recorded history with Admission.tla and judges: served iff admitted on the effective address, refused / header-less "
+                     "connections get zero bytes and reach no backend, invalid or disabled-version headers consume no budget, adapters and the issued authentication cookie see the "
+                     "announced source address.",
+                note='Trusted: TLC; the scripted TCP client of harness/hx-core (lib) and real loopback TCP; real time with 700-1000 ms of slack against failure modes that are unbounded waits or whole-timeout differences. The full Listener model is explored exhaustively only for 2-3 clients; scenario families are enumerated lists / TLC simulation, not exhaustive.'),
+    "C16": dict(engine="listener", design="5 C16", technique="TLC model checking of Listener.tla incl. liveness (weak fairness for the server and well-behaved clients only) + hostile sockets parked at every stage against the real Listener + TLC trace validation",
+                text="TLC checks that the accept loop is never in a state only a client can end and that a well-behaved client is resolved whatever the others withhold (and that the as-found "
+                     "structure with the header awaited inline fails). Against the real Listener hostile sockets are parked before the PROXY header, inside it, mid-frame, mid-login and "
+                     "never echoing -- alone, together, repeated -- with and without PROXY protocol and limiter; then a well-behaved status exchange is timed; TLC judges served within 2 s.",
+                note='Trusted: TLC; the scripted TCP client of harness/hx-core (lib) and real loopback TCP; real time with 700-1000 ms of slack against failure modes that are unbounded waits or whole-timeout differences. The full Listener model is explored exhaustively only for 2-3 clients; scenario families are enumerated lists / TLC simulation, not exhaustive.'),
+    "C17": dict(engine="listener", design="5 C17", technique="TLC model checking of Listener.tla incl. liveness stop ~> returned and the action property that the stop cancels nothing + in-flight / late-arrival scenarios against the real Listener + TLC trace validation",
+                text="In-flight connections are parked at chosen stages (silent, mid-login, cooperating and waiting on a slow discovery, about to be transferred), the stop is requested at a "
+                     "chosen moment, late clients connect 200+ ms afterwards; also shutdown with hostile peers parked. TLC judges: listen() returns, not before the last in-flight "
+                     "connection finished and within the timeout, cooperating clients still get their Transfer, late arrivals receive no byte.",
+                note='Trusted: TLC; the scripted TCP client of harness/hx-core (lib) and real loopback TCP; real time with 700-1000 ms of slack against failure modes that are unbounded waits or whole-timeout differences. The full Listener model is explored exhaustively only for 2-3 clients; scenario families are enumerated lists / TLC simulation, not exhaustive.'),
     "C18": dict(engine="routing", design="5 C18", technique="TLC model checking of Routing.tla over a finite domain + replay of exported scenarios through DynFilterAdapters/DynStrategyAdapter::from_config + TLC trace validation recomputing eligibility",
                 text="spec/Routing.tla (eligibility from rules, allow/block lists, host scope; acceptable choices per strategy) is checked by TLC; every explored scenario is exported as the "
                      "serde configuration plus targets, player and host, replayed into adapters built from that configuration, and the recorded (filtered, chosen) is judged by TLC through "
@@ -123,6 +146,8 @@ NOT_YET = {
 }
 
 ENGINES = [
+    {"name": "listener", "path": "lib/listener_check.py", "serves_properties": ["C14", "C15", "C16", "C17"],
+     "kind_free_text": "spec/Listener.tla + Admission.tla checked by TLC (safety + liveness); scenarios run by hx-core listener (real Listener) and hx-app serve (passage::start) on loopback TCP; records judged by TLC (Trace_Listener.tla)"},
     {"name": "timed", "path": "lib/timed_check.py", "serves_properties": ["C07"],
      "kind_free_text": "spec/ConnTimed.tla checked by TLC; schedules run by hx-core conn-timed under virtual time; histories judged by TLC (Trace_ConnTimed.tla / ConnTimedProps.tla)"},
     {"name": "frames", "path": "lib/frames_check.py", "serves_properties": ["C08"],
